@@ -53,7 +53,7 @@ ANCHORS = [
 
 
 def plan(tier):
-    n = 250 if tier == "quick" else 8000
+    n = 2000 if tier == "quick" else 80000
     return [(c, n) for c in par.FAULT_CLASSES] + \
         [("dense", 4 * n), ("fanout", n)]
 
